@@ -1,7 +1,7 @@
 /-
 C06 — property theorems (see DESIGN.md §2 C06).  Helper lemmas live in Lemmas.lean.
 -/
-import LndModel.C06.Model
+import LndModel.C06.Lemmas
 
 namespace LndModel.C06
 
@@ -60,5 +60,215 @@ theorem store_bounded (flip : H → Nat → H) (zero : H) (hs : List H) (s : Sto
   exact gen hs _ s ⟨by simp [Store.new], by simp [Store.new, numBuckets]⟩ hrun
 
 example : (Store.new (0 : Nat)).WF := ⟨by simp [Store.new], by simp [Store.new, numBuckets]⟩
+
+/-! ## 3. Serialisation round trip
+
+`Store.WFBytes s` (Lemmas.lean): 49 slots, `lenBuckets ≤ 49`, `index < 2^64`, every active slot
+has a 32-byte hash and `idx < 2^64`, every inactive slot is the Go zero value `⟨0, zeroHash⟩`. -/
+
+/-- `encode_decode_roundtrip`: decoding the encoding of a well-formed store returns it. -/
+theorem encode_decode_roundtrip (s : Store Bytes) (h : s.WFBytes) :
+    Store.decode s.encode = .ok s :=
+  decode_encode_wf s h
+
+/-- whatever `decode` accepts (from real bytes) is well-formed … -/
+theorem decode_wellformed (bs : Bytes) (s : Store Bytes) (hb : ∀ x ∈ bs, x < 256)
+    (h : Store.decode bs = .ok s) : s.WFBytes :=
+  decode_wf bs s hb h
+
+/-- … hence re-encoding a decoded store and decoding again is the identity.
+    (`hb` is needed because the model's `Bytes` are `List Nat`: with an element `≥ 256` the
+    big-endian value does not fit 64 bits and `encode` truncates it.) -/
+theorem decode_encode_roundtrip (bs : Bytes) (s : Store Bytes) (hb : ∀ x ∈ bs, x < 256)
+    (h : Store.decode bs = .ok s) : Store.decode s.encode = .ok s :=
+  decode_encode_wf s (decode_wf bs s hb h)
+
+/-- size of the encoding: `1 + 40·lenBuckets + 8 ≤ 1969` bytes. -/
+theorem encode_size (s : Store Bytes) (h : s.WFBytes) :
+    s.encode.length = 1 + 40 * s.lenBuckets + 8 ∧ s.encode.length ≤ 1969 := by
+  have h1 := encode_length_wf s h
+  have h2 : s.lenBuckets ≤ 49 := h.2.1
+  omega
+
+/-- a fresh store is well-formed and insertion of 32-byte secrets keeps it so: every store
+    reachable by accepted insertions of 32-byte values round-trips. -/
+theorem reachable_roundtrip (flip : Bytes → Nat → Bytes) (hs : List Bytes) (s : Store Bytes)
+    (h32 : ∀ h ∈ hs, h.length = 32)
+    (hrun : hs.foldlM (fun st h => st.addNextEntry flip h) (Store.new zeroHash) = .ok s) :
+    Store.decode s.encode = .ok s ∧ s.encode.length ≤ 1969 := by
+  have gen : ∀ (hs : List Bytes) (s0 s : Store Bytes), s0.WFBytes → (∀ h ∈ hs, h.length = 32) →
+      hs.foldlM (fun st h => st.addNextEntry flip h) s0 = .ok s → s.WFBytes := by
+    intro hs
+    induction hs with
+    | nil => intro s0 s h0 _ h; simp [List.foldlM, pure, Except.pure] at h; cases h; exact h0
+    | cons x xs ih =>
+      intro s0 s h0 hl h
+      simp only [List.foldlM, bind, Except.bind] at h
+      split at h
+      · cases h
+      · rename_i s1 h1
+        exact ih s1 s (addNextEntry_wfBytes flip s0 s1 x h0 (hl x (by simp)) h1)
+          (fun y hy => hl y (by simp [hy])) h
+  have hnew : (Store.new zeroHash).WFBytes := by
+    refine ⟨by simp [Store.new], by simp [Store.new], by simp [Store.new, startIndex], ?_⟩
+    intro i e hi
+    simp only [Store.new, List.getElem?_replicate] at hi
+    split at hi
+    · cases hi; exact ⟨fun h => by simp [Store.new] at h, fun _ => rfl⟩
+    · cases hi
+  have hwf := gen hs _ s hnew h32 hrun
+  exact ⟨decode_encode_wf s hwf, (encode_size s hwf).2⟩
+
+example : (Store.new zeroHash).WFBytes ∧ (Store.new zeroHash).encode.length = 9 := by
+  refine ⟨⟨by simp [Store.new], by simp [Store.new], by simp [Store.new, startIndex], ?_⟩, ?_⟩
+  · intro i e hi
+    simp only [Store.new, List.getElem?_replicate] at hi
+    split at hi
+    · cases hi; exact ⟨fun h => by simp [Store.new] at h, fun _ => rfl⟩
+    · cases hi
+  · simp [Store.encode, Store.new, beBytes]
+
+/-- non-vacuity of `decode_encode_roundtrip`: a 9-byte input that decodes. -/
+example : ∃ s, Store.decode [0, 0, 0, 255, 255, 255, 255, 255, 254] = .ok s ∧
+    (∀ x ∈ [0, 0, 0, 255, 255, 255, 255, 255, 254], x < 256) :=
+  ⟨_, rfl, by decide⟩
+
+/-! ## 2. Acceptance check -/
+
+/-- `reject_inconsistent`: `AddNextEntry` accepts `h` at index `s.index` iff the target bucket
+    exists and every lower bucket `i < ctz s.index` holds exactly the element derived from
+    `⟨s.index, h⟩` for that bucket's index; the resulting store is then `s.inserted h`
+    (bucket `ctz s.index` overwritten, `lenBuckets` raised, index decremented mod 2^64). -/
+theorem reject_inconsistent (flip : H → Nat → H) (s : Store H) (h : H) :
+    (∃ s', s.addNextEntry flip h = .ok s') ↔
+      (ctz s.index < s.buckets.length ∧
+        ∀ i, i < ctz s.index →
+          ∃ b, s.buckets[i]? = some b ∧ derive flip ⟨s.index, h⟩ b.idx = some b) := by
+  constructor
+  · rintro ⟨s', hs'⟩
+    exact (accepts_of_addNextEntry flip s s' h hs').1
+  · intro ha
+    exact ⟨_, addNextEntry_of_accepts flip s h ha⟩
+
+theorem addNextEntry_result (flip : H → Nat → H) (s s' : Store H) (h : H)
+    (hadd : s.addNextEntry flip h = .ok s') :
+    s' = { lenBuckets := if ctz s.index + 1 > s.lenBuckets then ctz s.index + 1 else s.lenBuckets,
+           buckets := s.buckets.set (ctz s.index) ⟨s.index, h⟩,
+           index := (s.index + 2 ^ 64 - 1) % 2 ^ 64 } :=
+  (accepts_of_addNextEntry flip s s' h hadd).2
+
+/-- Corollary: with a hash step that is injective at every bit position, an honest store that
+    has received the producer's first `k` secrets and whose next index has at least one
+    trailing zero rejects every value other than the producer's `k`-th secret. -/
+theorem reject_wrong_secret (flip : H → Nat → H)
+    (hinj : ∀ p, Function.Injective (fun h => flip h p)) (root zero : H) (k : Nat)
+    (hk : k < 2 ^ 48) (hz : 1 ≤ ctz (startIndex - k)) (hs : List H) (s : Store H)
+    (hhs : hs.map some = (List.range k).map (producerAt flip root))
+    (hrun : hs.foldlM (fun st h => st.addNextEntry flip h) (Store.new zero) = .ok s)
+    (h : H) (hne : some h ≠ producerAt flip root k) :
+    s.addNextEntry flip h = .error .mismatch := by
+  have hsec := secrets_unique flip root (Nat.le_of_lt hk) hhs
+  subst hsec
+  obtain ⟨hrun', hinv⟩ := honest_run flip root zero k (Nat.le_of_lt hk)
+  rw [hrun'] at hrun
+  cases hrun
+  have hm : 2 ^ 48 - k = (startIndex - k) + 1 := by unfold startIndex; omega
+  rw [hm] at hinv
+  rw [producerAt_eq flip root hk] at hne
+  exact inv_rejects hinj hinv hz (fun heq => hne (by rw [heq]))
+
+/-- non-vacuity: an injective step, `k = 1` (next index `2^48 - 2` has one trailing zero). -/
+example : (∀ p, Function.Injective (fun h : Nat => (fun h p => 2 * h + p) h p)) ∧
+    1 ≤ ctz (startIndex - 1) ∧
+    ∃ hs : List Nat, hs.map some = (List.range 1).map (producerAt (fun h p => 2 * h + p) 7) :=
+  ⟨fun p a b hab => by simp only at hab; omega, by decide,
+   ⟨secrets _ 7 1, secrets_spec _ 7 (by omega)⟩⟩
+
+/-! ## 1. The store reproduces the producer -/
+
+/-- `store_reproduces_producer`: for every `k ≤ 2^48`, feeding the producer's secrets
+    `AtIndex 0 … AtIndex (k-1)` in order into a fresh store is accepted at every step (every
+    prefix of the run ends in `.ok`), afterwards `LookUp v` returns exactly the producer's secret
+    for every `v < k`, and fails for every `v ≥ k` (not yet received, or outside the 2^48 index
+    space). Holds for every hash type, every step function `flip`, every root. -/
+theorem store_reproduces_producer (flip : H → Nat → H) (root zero : H) (k : Nat)
+    (hk : k ≤ 2 ^ 48) (hs : List H)
+    (hhs : hs.map some = (List.range k).map (producerAt flip root)) :
+    ∃ s, hs.foldlM (fun st h => st.addNextEntry flip h) (Store.new zero) = .ok s ∧
+      (∀ j, j ≤ k → ∃ sj,
+        (hs.take j).foldlM (fun st h => st.addNextEntry flip h) (Store.new zero) = .ok sj) ∧
+      (∀ v, v < k → ∃ h, producerAt flip root v = some h ∧ s.lookUp flip v = some h) ∧
+      (∀ v, k ≤ v → v < 2 ^ 64 → s.lookUp flip v = none) := by
+  have hsec := secrets_unique flip root hk hhs
+  subst hsec
+  obtain ⟨hrun, hinv⟩ := honest_run flip root zero k hk
+  refine ⟨_, hrun, ?_, ?_, ?_⟩
+  · intro j hj
+    rw [secrets_take flip root hj]
+    exact ⟨_, (honest_run flip root zero j (by omega)).1⟩
+  · intro v hv
+    refine ⟨_, producerAt_eq flip root (by omega), ?_⟩
+    exact lookUp_received hinv (by omega) (by unfold startIndex; omega)
+  · intro v hv hv'
+    by_cases h48 : v < 2 ^ 48
+    · exact lookUp_unreceived hinv h48 (by unfold startIndex; omega)
+    · exact lookUp_out_of_range hinv (by omega) hv'
+
+omit [DecidableEq H] in
+/-- the hypothesis of `store_reproduces_producer` is satisfiable for every `k ≤ 2^48`:
+    the producer never fails inside the index space. -/
+theorem producer_total (flip : H → Nat → H) (root : H) (k : Nat) (hk : k ≤ 2 ^ 48) :
+    ∃ hs : List H, hs.length = k ∧ hs.map some = (List.range k).map (producerAt flip root) :=
+  ⟨secrets flip root k, by simp [secrets], secrets_spec flip root hk⟩
+
+/-- the whole chain: all `2^48` secrets can be inserted and every one is reproduced. -/
+theorem store_reproduces_whole_chain (flip : H → Nat → H) (root zero : H) :
+    ∃ (hs : List H) (s : Store H), hs.length = 2 ^ 48 ∧
+      hs.foldlM (fun st h => st.addNextEntry flip h) (Store.new zero) = .ok s ∧
+      ∀ v, v < 2 ^ 48 → ∃ h, producerAt flip root v = some h ∧ s.lookUp flip v = some h := by
+  obtain ⟨hs, hlen, hhs⟩ := producer_total flip root (2 ^ 48) (Nat.le_refl _)
+  obtain ⟨s, hrun, _, hlook, _⟩ :=
+    store_reproduces_producer flip root zero (2 ^ 48) (Nat.le_refl _) hs hhs
+  exact ⟨hs, s, hlen, hrun, hlook⟩
+
+/-- non-vacuity with a concrete step function: 5 secrets, all reproduced, the 6th unknown. -/
+example : ∃ hs : List Nat, hs.length = 5 ∧
+    hs.map some = (List.range 5).map (producerAt (fun h p => 2 * h + p + 1) 7) :=
+  producer_total _ 7 5 (by omega)
+
+/-- concrete evaluation (kernel computation on the model itself): after 5 honest insertions
+    secret 3 is reproduced and secret 5 is unknown. -/
+example :
+    let flip : Nat → Nat → Nat := fun h p => 2 * h + p + 1
+    let s := honestStore flip 7 0 5
+    (secrets flip 7 5).foldlM (fun st h => st.addNextEntry flip h) (Store.new 0) = .ok s ∧
+    s.lookUp flip 3 = producerAt flip 7 3 ∧ producerAt flip 7 3 ≠ none ∧
+    s.lookUp flip 5 = none := by
+  intro flip s
+  exact ⟨(honest_run flip 7 0 5 (by omega)).1, by decide, by decide, by decide⟩
+
+/-- Observation (behaviour of the code, not a defect inside the 2^48 index space): once all
+    2^48 secrets have been received the index has wrapped to 2^64-1, which is odd, so the
+    store accepts ANY further value without a check. -/
+theorem exhausted_store_accepts_any (flip : H → Nat → H) (root zero : H) (hs : List H)
+    (s : Store H) (hhs : hs.map some = (List.range (2 ^ 48)).map (producerAt flip root))
+    (hrun : hs.foldlM (fun st h => st.addNextEntry flip h) (Store.new zero) = .ok s) (h : H) :
+    s.index = 2 ^ 64 - 1 ∧ ∃ s', s.addNextEntry flip h = .ok s' := by
+  have key : ∀ k, k = 2 ^ 48 → ∀ s : Store H,
+      (secrets flip root k).foldlM (fun st h => st.addNextEntry flip h) (Store.new zero) = .ok s →
+      s.index = 2 ^ 64 - 1 ∧ ∃ s', s.addNextEntry flip h = .ok s' := by
+    intro k hk s hrun
+    obtain ⟨hrun', hinv⟩ := honest_run flip root zero k (by omega)
+    rw [hrun'] at hrun
+    cases hrun
+    have hidx : (honestStore flip root zero k).index = 2 ^ 64 - 1 := by
+      rw [hinv.idx]; omega
+    have hctz : ctz (2 ^ 64 - 1) = 0 := ctz_of_mod (by omega) (by omega)
+    refine ⟨hidx, (reject_inconsistent flip _ h).2 ⟨?_, ?_⟩⟩
+    · rw [hidx, hctz, hinv.len]; simp [numBuckets]
+    · intro i hi; rw [hidx, hctz] at hi; omega
+  have hsec := secrets_unique flip root (Nat.le_refl _) hhs
+  rw [hsec] at hrun
+  exact key _ rfl s hrun
 
 end LndModel.C06
